@@ -3,4 +3,4 @@ from ..cfg import cfg_of
 from ..facts import span_str
 from ..models import norm
 
-E3_FLOORS = {"C03": 6, "C10": 20, "C11": 8, "C13": 8, "C14": 4, "C16": 150, "C17": 1, "C12": 4}
+E3_FLOORS = {"C05": 30, "C07": 60, "C03": 6, "C10": 20, "C11": 8, "C13": 8, "C14": 4, "C16": 150, "C17": 1, "C12": 4}
